@@ -344,6 +344,8 @@ Definition prim_step (out : parsed) (p : str) : pyres parsed :=
   else
     let ps := split_on "," p in
     let multi := negb (Nat.eqb (List.length ps) 1) in
+    if existsb (fun x => str_eqb x []) ps then Err IncorrectSmarts       (* if not all(p): 'Empty OR statement' *)
+    else
     match (if multi then first_chars_res ps else Ok []) with
     | Err e => Err e
     | Ok firsts =>
@@ -452,16 +454,17 @@ Definition has_extended_kw (p : parsed) : bool :=
   end.
 Definition has_isotope_kw (p : parsed) : bool := match p_isotope p with Some _ => true | None => false end.
 
-(* the element dispatch of smarts() followed by e(kwargs) *)
+(* the element dispatch of smarts() followed by  try: e(kwargs)  except TypeError: raise IncorrectSmarts
+   (a keyword argument the chosen class does not accept) *)
 Definition build_atom (p : parsed) : pyres qatom :=
   match p_element p with
   | [ENum n] =>
       if valid_number n then bind (build_qx p) (fun x => Ok (QElem n (p_isotope p) x)) else Err ValueError
   | [ESym s] =>
       if str_eqb s ["A"%char] then
-        if has_isotope_kw p then Err TypeError else bind (build_qx p) (fun x => Ok (QAny x))
+        if has_isotope_kw p then Err IncorrectSmarts else bind (build_qx p) (fun x => Ok (QAny x))
       else if str_eqb s ["M"%char] then
-        if has_isotope_kw p || has_extended_kw p then Err TypeError
+        if has_isotope_kw p || has_extended_kw p then Err IncorrectSmarts
         else bind (validate_opt 0 14 (p_nb p)) (fun nb => bind (validate_hyb (p_hyb p)) (fun hyb => Ok (QMetal nb hyb)))
       else match sym_number s with
            | Some n => bind (build_qx p) (fun x => Ok (QElem n (p_isotope p) x))
@@ -473,7 +476,7 @@ Definition build_atom (p : parsed) : pyres qatom :=
                               | ENum n => if valid_number n then Ok n else Err ValueError
                               | ESym s => match sym_number s with Some n => Ok n | None => Err ValueError end
                               end) els) (fun nums =>
-      if has_isotope_kw p then Err TypeError else bind (build_qx p) (fun x => Ok (QList nums x)))
+      if has_isotope_kw p then Err IncorrectSmarts else bind (build_qx p) (fun x => Ok (QList nums x)))
   end.
 
 Definition smarts_atom (body : str) : pyres qatom := bind (query_parse body) build_atom.
